@@ -76,6 +76,35 @@ class C09(Harness):
     def budget(self, tier):
         return 170 if tier == 'quick' else 1500
 
+    def reset(self):
+        """mutable state hanging off the datatype classes / stock converter objects is put back
+        before every path (a memo filled with symbolic terms on one path must not leak into the next;
+        on the pristine tree there is none)"""
+        import copy
+        from ZConfig import datatypes
+        snap = self.__dict__.get('_dt_snapshot')
+        if snap is None:
+            snap = []
+            objs = [v for v in vars(datatypes).values() if isinstance(v, type)]
+            objs += [v for v in datatypes.stock_datatypes.values() if hasattr(v, '__dict__')]
+            for o in objs:
+                for k, v in list(vars(o).items()):
+                    if isinstance(v, (dict, list, set)) and not k.startswith('__'):
+                        snap.append((o, k, copy.copy(v)))
+            self.__dict__['_dt_snapshot'] = snap
+        for o, k, v in snap:
+            cur = vars(o).get(k)
+            if isinstance(cur, dict):
+                from ..symstr import hash_ok
+                with hash_ok():
+                    cur.clear()
+                    cur.update(v)
+            elif isinstance(cur, list):
+                cur[:] = v
+            elif isinstance(cur, set):
+                cur.clear()
+                cur.update(v)
+
     def make_domain(self, unit=None):
         if unit is not None and unit['dt'] in U_TYPES:
             return domain_U()
@@ -87,6 +116,14 @@ class C09(Harness):
             for L in range(n, -1, -1):
                 us.append({'dt': dt, 'len': L})
         us.sort(key=lambda u: -u['len'])
+        # a converter is a function of its input alone: one regex-based type applied first, another
+        # one asked about the SAME string afterwards (shared caches / memos would show here)
+        rx = ['basic-key', 'identifier', 'dotted-name', 'dotted-suffix', 'ipaddr-or-hostname']
+        for a in rx:
+            for b in rx:
+                if a != b:
+                    for L in ((1, 2, 3) if tier == 'quick' else (1, 2, 3, 4)):
+                        us.append({'dt': b, 'len': L, 'first': a})
         return us
 
     def inputs(self, eng, unit):
@@ -122,6 +159,11 @@ class C09(Harness):
                         return ('ok', k)
                 return ('ok', '?')
             f = datatypes.Registry().get(dt)
+            if unit.get('first'):
+                try:
+                    _call(datatypes.Registry().get(unit['first']), s)
+                except (ValueError, TypeError):
+                    pass
             try:
                 v = _call(f, s)
             except ValueError:
